@@ -56,6 +56,7 @@ URIS = ['http://sim.test/a.txt', 'http://sim.test/b.json', 'file:///simfs/c.txt'
         'http://[bad', 'sim://x/y', 'http://sim.test/g.txt#frag']
 FILE_TEXTS = ['{"a": 1, "b": [1, 2]}', 'line1\nline2\n', 'café €', '[1, 2', '', '﻿bom', 'x' * 300,
               'café naïve', 'pâté\nöl\n', '{"k": "é"}']
+URI_VARS = {'u%d' % i: u for i, u in enumerate(URIS)}
 IO_EXPRS = ['json-doc(%s)', 'json-doc(%s, map{"liberal": true()})', 'unparsed-text(%s)', 'unparsed-text(%s, "utf-8")',
             'unparsed-text(%s, "utf-16")', 'unparsed-text-lines(%s)', 'unparsed-text-available(%s)',
             'unparsed-text-available(%s, "iso-8859-1")', 'count(unparsed-text-lines(%s))',
@@ -188,7 +189,7 @@ def _pool_classes():
 
 POOL_CLASSES = _pool_classes()
 REGEX_POOL = ["'[a-z'", "'x*'", "'(a)|(b)'", "'\\p{L}+'", "'\\P{IsBasicLatin}'", "'[a-z-[aeiou]]'", "'(a|b)*c{2,3}?'", "'^.*$'",
-              "'\\1'", "'(?i)a'", "'a{99999}'", "'a{2,1}'", "'\\p{IsNoSuchBlock}'", "'a{'", "'}'", "'{}'", "'a{,3}'", "'(a'",
+              "'\\1'", "'(?i)a'", "'a{99999}'", "'a{99999999999}'", "'a{2,1}'", "'(a*)*b'", "'\\p{IsNoSuchBlock}'", "'a{'", "'}'", "'{}'", "'a{,3}'", "'(a'",
               "'a)'", "'[]'", "'[^]'", "'\\'", "'a|'", "'(())'", "'\\p{Lu}{2}'", "'x{0}'", "'.'", "''", "'\\s+'", "'\\i\\c*'",
               "'[\\w-[\\d]]'", "'a{1}{2}'", "'(a)\\2'", "'\\n'", "'$'", "'^'"]
 FLAG_POOL = ["''", "'i'", "'s'", "'m'", "'x'", "'q'", "'imsxq'", "'j'", "'ii'", "' '", "'I'"]
@@ -231,6 +232,24 @@ def format_source(rng):
     elif f == 'format-number' and rng.random() < 0.2:
         extra = ', %s' % rng.choice(["'nope'", '()', "'Q{u}f'"])
     return '%s(%s, %s%s)' % (f, value, pic, extra)
+
+
+REGEX_INPUTS = ["'abracadabra'", "'a1b22c333'", "''", "'The cat sat'", "'a.b|c'", "'\n x \t'", "'é€😀'", "'aaa'", "'2000-01-01'"]
+
+
+def regex_source(rng):
+    """The regular expression functions over a grid of inputs, patterns, replacement strings and flags."""
+    f = rng.choice(['replace', 'replace', 'tokenize', 'matches', 'analyze-string'])
+    inp, pat, flags = rng.choice(REGEX_INPUTS), rng.choice(REGEX_POOL), rng.choice(FLAG_POOL)
+    with_flags = rng.random() < 0.4
+    if f == 'replace':
+        args = [inp, pat, rng.choice(REPLACEMENT_POOL)] + ([flags] if with_flags else [])
+    else:
+        args = [inp, pat] + ([flags] if with_flags else [])
+    text = '%s(%s)' % (f, ', '.join(args))
+    if f == 'analyze-string':
+        text = rng.choice(['%s', 'string(%s)', 'count(%s//*)', '%s//*:group/@nr/string()']) % text
+    return text
 
 
 def typed_pool(name, index, declared, version):
@@ -381,7 +400,9 @@ def opcall_source(rng, version='3.1'):
 
 
 def valid_source(rng):
-    k = rng.randrange(14)
+    k = rng.randrange(16)
+    if k >= 14:
+        return regex_source(rng)
     if k == 13:
         return format_source(rng)
     if k >= 11:
@@ -441,8 +462,17 @@ def gen_case(rng, tier):
     nops = rng.randint(2, 30 if thorough else 12)
     reclimit = rng.choice([None, None, None, 200, 400])
     ops = []
+    shared_ctx = rng.random() < 0.25
+    hot = rng.sample(sorted(files), min(len(files), rng.choice([1, 1, 2])))     # resources asked for again and again
     for _ in range(nops):
         x = rng.random()
+        if shared_ctx and x < 0.6:
+            # I/O-heavy history on one dynamic context: the same few resources, mostly through variables
+            uri = rng.choice(hot)
+            arg = '$u%d' % URIS.index(uri) if rng.random() < 0.7 else "'%s'" % uri.replace("'", "''")
+            ops.append({'op': 'eval', 'p': rng.randrange(nparsers), 'src': rng.choice(IO_EXPRS) % arg, 'kind': 'io', 'io': True,
+                        'at_parse': False, 'probes': sorted(rng.sample(range(len(PROBES)), 3))})
+            continue
         p = rng.randrange(nparsers)
         probes = sorted(rng.sample(range(len(PROBES)), 3))
         if x < 0.4:
@@ -459,6 +489,8 @@ def gen_case(rng, tier):
         elif x < 0.9:
             uri = rng.choice(sorted(files)) if rng.random() < 0.6 else rng.choice(URIS)
             arg = "'%s'" % uri.replace("'", "''")
+            if rng.random() < 0.4 and uri in URIS:
+                arg = '$u%d' % URIS.index(uri)      # from a variable: evaluated with the dynamic context, not by parse()
             if rng.random() < 0.15:
                 arg = '(%s, %s)' % (arg, "'%s'" % rng.choice(URIS))
             ops.append({'op': 'eval', 'p': p, 'src': rng.choice(IO_EXPRS) % arg, 'kind': 'io', 'io': True,
@@ -469,7 +501,7 @@ def gen_case(rng, tier):
                         'locale_fault': sorted(set(rng.randint(1, 4) for _ in range(rng.choice([0, 1, 2])))),
                         'probes': probes})
     return {'config': {'parsers': parsers, 'installed': installed, 'files': files, 'reclimit': reclimit,
-                       'shared_ctx': rng.random() < 0.3}, 'ops': ops}
+                       'shared_ctx': shared_ctx}, 'ops': ops}
 
 
 def simplify(case):
@@ -673,8 +705,10 @@ def run_case(case, world):
                     if op.get('io') and case['config'].get('shared_ctx'):
                         # one dynamic context for all the I/O evaluations of the history (its resource caches persist)
                         if shared_ctx[0] is None:
-                            shared_ctx[0] = elementpath.XPathContext(root)
+                            shared_ctx[0] = elementpath.XPathContext(root, variables=dict(URI_VARS))
                         ctx = shared_ctx[0]
+                    elif op.get('io'):
+                        ctx = elementpath.XPathContext(root, variables=dict(URI_VARS))
                     else:
                         ctx = elementpath.XPathContext(root, variables=variables)
                     if op.get('lazy'):
